@@ -6,6 +6,7 @@ from specs import grammar
 import gfapy
 
 ALPHABET = "01+-_.eE$*, aAfM:\x0b"
+ALIGNMENT_ALPHABET = "12M=XSI,*-"
 DATATYPES = [d for d in grammar.GRAMMAR if d not in ("comment",)]
 
 
@@ -177,6 +178,14 @@ def cases(tier, seed):
             if "\t" in s or "\n" in s:
                 continue
             out.append(("field", dt, s))
+    # alignments over their own alphabet (digits, every CIGAR operation class of either version, the trace separator and sign, the placeholder)
+    astrings = []
+    for k in range(1, (4 if tier == "quick" else 5) + 1):
+        astrings.extend("".join(t) for t in itertools.product(ALIGNMENT_ALPHABET, repeat=k))
+    for dt in ("alignment_gfa1", "alignment_gfa2", "alignment_list_gfa1"):
+        if dt in DATATYPES:
+            for s_ in astrings:
+                out.append(("field", dt, s_))
     # cross-field shapes: P lines with 1-4 segments and 0-5 overlaps (all '*', all CIGARs, mixed)
     segs = ["A+", "B+", "C-"]
     for ns in range(1, 4):
